@@ -17,7 +17,8 @@ RULE = ('enumerated part: for every bounded type (Number, Integer, Magnitude, Da
         'set {lo-eps, lo, lo+eps, hi-eps, hi, hi+eps, nan, +-inf, None, bool} through all routes (class creation, '
         'constructor, instance attribute, class attribute, param.update, deserialize->constructor); random part: random '
         'configurations of all 23 types (regex, length, item type, objects list/dict, check_on_set, class_, is_instance) x '
-        'hostile candidate pool. Each attempt outcome (installed / ValueError|TypeError) must equal the predicate, the '
+        'hostile candidate pool; the configuration reaches the Parameter directly, through a subclass that redeclares the '
+        'parameter without restating it, or by assigning one Parameter attribute after declaration. Each attempt outcome (installed / ValueError|TypeError) must equal the predicate, the '
         'read-back must be the assigned object and a rejection must leave the old value. non-trivial = candidate is a '
         'boundary/NaN/None/bool/cross-type value or the config has a non-default constraint; distinct by (type, '
         'config class, candidate class, route)')
@@ -34,7 +35,7 @@ ASSUMPTIONS = [
     'range ends) are executed and counted but not judged',
     'Path/File selector types are excluded (they depend on the file system, not on declared constraints)',
 ]
-REQUIRED = {'attempts_judged': 20000, 'accepted': 3000, 'rejected': 3000, 'boundary_attempts': 3000}
+REQUIRED = {'mode_inherited': 100, 'mode_mutated': 100, 'attempts_judged': 20000, 'accepted': 3000, 'rejected': 3000, 'boundary_attempts': 3000}
 
 _st = {}
 NAN = float('nan')
@@ -351,8 +352,42 @@ def run_case(idx, rng, P, rep):
         rep.violation(f'C01/{t}/{key}', f'{t}({cdesc}) route={route} value={v!r} ({cand_class(v)}): {msg}',
                       case=dict(type=t, cfg=cdesc, route=route, value=repr(v)))
 
+    # ---- how the configuration reaches the Parameter object: declared directly, inherited by a subclass that
+    # redeclares the parameter without restating the constraints, or installed after declaration by assigning
+    # the Parameter attribute ("the constraints in force at that moment")
+    mode, mkey = 'direct', None
+    if not boundary or rng.random() < 0.25:
+        c = rng.random()
+        if c < 0.25 and t not in ('Selector', 'ListSelector', 'Tuple', 'NumericTuple', 'XYCoordinates'):
+            mode = 'inherited'
+        elif c < 0.5:
+            keys = [k for k in ('bounds', 'regex', 'item_type', 'inclusive_bounds', 'allow_named', 'is_instance') if k in cfg]
+            if default is not None:
+                keys.append('allow_None')
+            if keys:
+                mode, mkey = 'mutated', rng.choice(keys)
+    rep.count(f'mode_{mode}')
+    cdesc['config-delivered'] = mode + (f':{mkey}' if mkey else '')
+
+    def make_cls(name):
+        if mode == 'inherited':
+            parent = type(name + '_base', (param.Parameterized,), {'p': declare(param, t, cfg, default)})
+            kw = {'class_': cfg['class_']} if t == 'ClassSelector' else {}
+            return type(name, (parent,), {'p': getattr(param, t)(doc='redeclared', **kw)})
+        if mode == 'mutated':
+            cfg0 = {k: v for k, v in cfg.items() if k != mkey}
+            if mkey == 'allow_None':
+                cfg0['allow_None'] = not cfg.get('allow_None', False)
+            d0 = default if spec.accepts(t, cfg0, default) == spec.ACCEPT else a_valid_default(t, cfg0)
+            if d0 is None and not cfg0.get('allow_None'):
+                return type(name, (param.Parameterized,), {'p': declare(param, t, cfg, default)})
+            K = type(name, (param.Parameterized,), {'p': declare(param, t, cfg0, d0)})
+            setattr(K.param['p'], mkey, cfg.get(mkey, False))
+            return K
+        return type(name, (param.Parameterized,), {'p': declare(param, t, cfg, default)})
+
     try:
-        base_cls = type(f'V{idx}', (param.Parameterized,), {'p': declare(param, t, cfg, default)})
+        base_cls = make_cls(f'V{idx}')
     except Exception as e:   # noqa: BLE001
         verdict0 = spec.accepts(t, cfg, default)
         if verdict0 == spec.ACCEPT:
@@ -372,6 +407,10 @@ def run_case(idx, rng, P, rep):
                 elif t in ('Tuple', 'NumericTuple', 'XYCoordinates') and isinstance(v, tuple) and v:
                     cfg_eff = dict(cfg, length=len(v))
             verdict = spec.accepts(t, cfg_eff, v)
+            if mode == 'inherited' and v is None:
+                # allow_None is computed from each declaration on its own (explicit flag, or a None default - also the
+                # type's own None default), it is not inherited: not judged here (C11 models it)
+                verdict = spec.UNSPEC
             if route == 'deser':
                 if t not in SERIALIZABLE:
                     continue
@@ -386,8 +425,10 @@ def run_case(idx, rng, P, rep):
             if cfg.get('constant') and route in ('inst', 'update'):
                 continue          # not assignable on an instance at all (C14's business)
             K = base_cls
+            if route == 'create' and mode != 'direct':
+                continue
             if fresh_needed or route == 'cls':
-                K = type(f'V{idx}_x', (param.Parameterized,), {'p': declare(param, t, cfg, default)})
+                K = make_cls(f'V{idx}_x')
             inst = K() if route in ('inst', 'update') else None
             before = inst.p if inst is not None else (K.p if route == 'cls' else None)
             exc = None
